@@ -1,4 +1,5 @@
 import IGVerif.Props.Ties
+import IGVerif.Proofs.ComboBraceParse
 /-! C02 — nested statements and their combinations attach where and how they are written.
 
 The statement-level parser is modelled by its specification (`denote`, Spec/Grammar.lean) and
@@ -50,5 +51,56 @@ example : supported (.mk [.ann { sym := Sym.A } true (.leaf (str "x")),
 
 example : supported (.mk [.nested { sym := Sym.Bdir } (.mk [.ncomb { sym := Sym.Cac }
     (.op .XOR (.one { sym := Sym.Cac } (.mk [])) (.one { sym := Sym.Cac } (.mk [])))])]) = false := by decide
+
+/-! ### The combination parser in brace mode (model of `ParseIntoNodeTree(…, "{", "}")` as
+    called by `parseNestedStatementCombination`, tied to the code by the `combo` correspondence
+    stream of C01's check, which covers both bracket kinds) -/
+
+/-- the tree of nested statements as a tree of leaf texts -/
+def toBT : NTree → Combo.BT
+  | .one h s => .one (renderHdr h) (renderS s)
+  | .op o l r => .op o (toBT l) (toBT r)
+
+/-- the concrete syntax of a combination of nested statements is the text the parser model scans -/
+theorem renderN_eq : (t : NTree) → renderN t = Combo.renderB (toBT t)
+  | .one h s => by simp [renderN, toBT, Combo.renderB]
+  | .op o l r => by simp [renderN, toBT, Combo.renderB, renderN_eq l, renderN_eq r]
+
+/-- **A braced combination of nested statements yields exactly the written operator tree over
+    those statements**: for every tree of any depth over [AND]/[OR]/[XOR] whose nested statements
+    are written `Sym{…}` with balanced parentheses and brackets only inside parentheses (so
+    operators inside a component are not taken for statement-level operators), the parser
+    returns the written tree with one leaf per nested statement, holding its complete text, the
+    unchanged input and no error. -/
+theorem nested_combination_parser_round_trip (o : Op3) (l r : NTree) (h : Combo.BOk (toBT (.op o l r)))
+    (nested : Bool) (fuel : Nat) (hf : Combo.depthB (toBT (.op o l r)) ≤ fuel) :
+    Combo.parse true fuel (renderN (.op o l r)) nested
+      = .res ⟨Combo.treeOfB (toBT (.op o l r)), renderN (.op o l r), Combo.cNoError⟩ := by
+  rw [renderN_eq]
+  exact Combo.parseB_render o (toBT l) (toBT r) h nested fuel hf
+
+/-- the same with the component symbol in front, which is the text `parseNestedStatementCombination`
+    hands over (`Cac{Cac{…} [AND] Cac{…}}`): same tree; the symbol becomes shared left text of
+    the root -/
+theorem nested_combination_parser_with_symbol (sym : Str) (o : Op3) (l r : NTree) (h : Combo.BOk (toBT (.op o l r)))
+    (hs : Combo.SWord sym) (hb : Combo.BPlain sym) (nested : Bool) (fuel : Nat)
+    (hf : Combo.depthB (toBT (.op o l r)) ≤ fuel) :
+    Combo.parse true fuel (sym ++ renderN (.op o l r)) nested
+      = .res ⟨.comb o.str [sym] [] (Combo.treeOfB (toBT l)) (Combo.treeOfB (toBT r)), sym ++ renderN (.op o l r), Combo.cNoError⟩ := by
+  rw [renderN_eq]
+  exact Combo.parseB_with_symbol sym o (toBT l) (toBT r) h hs hb nested fuel hf
+
+/-- every level of the scan: one complete boundary with the written operator for a combination,
+    one incomplete boundary for a nested statement, lower levels untouched -/
+theorem brace_scan_records_the_written_tree (t : Combo.BT) (hb : Combo.BOk t) (cs : Str) (i : Nat) (st : Combo.St)
+    (h : st.modes.length ≤ st.lm.length) (hg : st.gpar = 0) :
+    ∃ lm', Combo.scan '{' '}' (Combo.renderB t ++ cs) i st
+            = Combo.scan '{' '}' cs (i + (Combo.renderB t).length) { st with lm := lm' }
+      ∧ Combo.Ext st.modes.length st.lm lm' (Combo.entsB t i) :=
+  Combo.scan_renderB t hb cs i st h hg
+
+/-- the side conditions hold for `{Cac{A(a) I((b [AND] c))} [OR] Cac{A(d) I(e)}}` -/
+example : Combo.BOk (.op .OR (.one (str "Cac") (str "A(a) I((b [AND] c))")) (.one (str "Cac") (str "A(d) I(e)"))) := by
+  refine .op _ _ _ (.one _ _ ?_ ?_ ?_ ?_ ?_) (.one _ _ ?_ ?_ ?_ ?_ ?_) <;> simp [Combo.BPlain, str] <;> decide
 
 end IGVerif.C02
